@@ -199,6 +199,11 @@ fn leaf_node(cfg: &WxmlCfg) -> BoxedStrategy<Node> {
             3 => gexpr::ident_name(&cfg.expr).prop_map(ObjItem::Short),
             2 => e.clone().prop_map(ObjItem::Spread),
         ];
+        let lit_item = prop_oneof![(prop_oneof![Just("a"), Just("b"), Just("c"), Just("item"), Just("x")].prop_map(|s: &str| s.to_string()), e.clone()).prop_map(|(k, v)| ObjItem::KV(k, v)), gexpr::ident_name(&cfg.expr).prop_map(ObjItem::Short)];
+        let obj_lit = proptest::collection::vec(lit_item, 1..3).prop_map(|items| {
+            let mut seen = std::collections::HashSet::new();
+            Expr::Obj(items.into_iter().filter(|it| match it { ObjItem::KV(k, _) | ObjItem::Short(k) => seen.insert(k.clone()), ObjItem::Spread(_) => true }).collect())
+        });
         let data = proptest::option::weighted(
             0.8,
             proptest::collection::vec(item, 1..4).prop_map(|items| {
@@ -216,10 +221,13 @@ fn leaf_node(cfg: &WxmlCfg) -> BoxedStrategy<Node> {
         let data_expr = prop_oneof![
             Just(Expr::Paren(Box::new(Expr::ident("obj")))),
             gexpr::ident_name(&cfg.expr).prop_map(|c| Expr::Cond(Box::new(Expr::Ident(c)), Box::new(Expr::ident("obj")), Box::new(Expr::Paren(Box::new(Expr::ident("obj")))))),
+            // object literals behind a conditional: their update-path trees are template-data trees, not binding marks
+            (gexpr::ident_name(&cfg.expr), obj_lit.clone(), obj_lit.clone()).prop_map(|(c, a, b)| Expr::Cond(Box::new(Expr::Ident(c)), Box::new(a), Box::new(b))),
+            (gexpr::ident_name(&cfg.expr), obj_lit.clone()).prop_map(|(c, a)| Expr::Cond(Box::new(Expr::Ident(c)), Box::new(a), Box::new(Expr::ident("obj")))),
         ];
         alts.push((
             2,
-            (is, data, proptest::option::weighted(0.15, data_expr))
+            (is, data, proptest::option::weighted(0.25, data_expr))
                 .prop_map(|(is, data, de)| match de {
                     Some(e) => Node::Tis(Tis { is, data: None, data_expr: Some(e) }),
                     None => Node::Tis(Tis { is, data, data_expr: None }),
@@ -348,7 +356,7 @@ pub fn group(cfg: &WxmlCfg) -> BoxedStrategy<Group> {
     } else {
         Just(vec![]).boxed()
     };
-    let imports = proptest::collection::vec(prop_oneof![Just("lib/t"), Just("/lib/t.wxml"), Just("./lib/u"), Just("lib/u")].prop_map(|s: &str| s.to_string()), 0..3);
+    let imports = proptest::collection::vec(prop_oneof![Just("lib/t"), Just("/lib/t.wxml"), Just("./lib/u"), Just("lib/u")].prop_map(|s: &str| s.to_string()), 0..5);
     let slot_refs = cfg.slot_refs;
     (body(cfg), named(&named_cfg), wxs, imports, body(&inner), body(&inner), named(&named_cfg), named(&named_cfg), any::<u64>())
         .prop_map(move |(body, named, wxs, imports, inc_a, inc_b, lib_t, lib_u, deco)| {
